@@ -19,6 +19,8 @@ type Swarm struct {
 	// Cold: the run is the first thing its process does and nothing of the library runs before the concurrent tasks start
 	// (C20: first-use initialisation of process-wide state happens under concurrency)
 	Cold bool `json:"cold,omitempty"`
+	// Soak: every non-create operation is applied this many further times to the same state through the same applier
+	Soak int `json:"soak,omitempty"`
 	// FlushPools: the runtime's object pools are emptied at every task switch (C20; always on in cold runs)
 	FlushPools bool `json:"flushPools,omitempty"`
 	GenesisTime  uint64   `json:"genesisTime"`
@@ -105,6 +107,7 @@ type Step struct {
 	// protocol vocabulary that the operation type's signed data does not use ("$reveal" / "$suffix" stand for the request's values)
 	SignedExtra map[string]any `json:"signedExtra,omitempty"`
 	Replay       int    `json:"replay,omitempty"`   // n > 0: re-anchor the bytes of the n-th most recent operation this wallet authored for the DID
+	Respace      bool   `json:"respace,omitempty"`  // direct submissions: request bytes re-serialised with whitespace / another member order
 	PadDelta     int    `json:"padDelta,omitempty"` // 1: pad the delta to exactly MaxDeltaSize (canonical bytes); 2: one byte below; 3: one byte above (invalid)
 	PadKind      int    `json:"padKind,omitempty"`  // which characters the padding contains (encoders disagree on the length of some)
 
